@@ -41,7 +41,10 @@ import (
 
 type M = map[string]any
 
-var Scopes = []string{"openid", "profile", "email", "offline_access"}
+// scopes: every relying party gets a slice of its own (the configuration is the caller's; the harness keeps the reference value apart)
+func scopes() []string { return []string{"openid", "profile", "email", "offline_access"} }
+
+const scopeString = "openid profile email offline_access"
 
 const defaultLogout = "https://op.example.test/logged-out"
 
@@ -177,7 +180,7 @@ func NewWorld(w *opdrv.WorldJSON, router string, pkce bool, rng *rand.Rand) *Wor
 			k := opdrv.ClientKey(id)
 			opts = append(opts, rp.WithJWTProfile(rp.SignerFromKeyAndKeyID(pemOf(k), k.KID)))
 		}
-		p.rp, err = rp.NewRelyingPartyOIDC(ctx, opdrv.Issuer, id, secret, redirectOf[id], Scopes, opts...)
+		p.rp, err = rp.NewRelyingPartyOIDC(ctx, opdrv.Issuer, id, secret, redirectOf[id], scopes(), opts...)
 		if err != nil {
 			panic("harness: relying party " + id + ": " + err.Error())
 		}
@@ -363,7 +366,7 @@ func (w *World) exec(op string, a M) M {
 		o["class"], o["att"] = "redirect", at.name
 		o["client"] = q.Get("client_id") == id && strings.HasPrefix(loc.String(), opdrv.Issuer+"/authorize?")
 		o["redirect"] = q.Get("redirect_uri") == redirectOf[id]
-		o["scopes"] = q.Get("scope") == strings.Join(Scopes, " ") && q.Get("response_type") == "code"
+		o["scopes"] = q.Get("scope") == scopeString && q.Get("response_type") == "code"
 		if v, ok := w.decode(p.ch, "state", jar["state"]); ok && v == at.state && at.state != "" {
 			o["stateCookie"] = true
 		}
@@ -636,7 +639,7 @@ func (w *World) exec(op string, a M) M {
 	case "DeviceStart":
 		id := str(a, "rp")
 		o := M{"class": "error", "dc": "none", "uriOnIssuer": false}
-		resp, err := rp.DeviceAuthorization(ctx, Scopes, w.rps[id].rp, nil)
+		resp, err := rp.DeviceAuthorization(ctx, scopes(), w.rps[id].rp, nil)
 		if err != nil || resp == nil {
 			o["detail"] = fmt.Sprint(err)
 			return o
